@@ -50,6 +50,15 @@ func divergentChannelChoice(sa flows.SessionAssets, sc *scenario) (bool, string)
 			if ca != cb {
 				return true, fmt.Sprintf("%s -> %v, %s -> %v", s.A, ca, s.B, cb)
 			}
+			// ... and once the affinity is gone (set_contact_channel null, a refreshed contact, a message's URN)
+			strip := func(raw string) string {
+				scheme, path, _, display := urns.URN(raw).ToParts()
+				return mkURN(scheme, path, "", display)
+			}
+			ca, cb = mk(strip(s.A)), mk(strip(s.B))
+			if ca != cb {
+				return true, fmt.Sprintf("%s -> %v, %s -> %v", strip(s.A), ca, strip(s.B), cb)
+			}
 		}
 		return false, ""
 	}
@@ -351,7 +360,14 @@ func runScenario(sc *scenario, seed uint64, res *hx.Result, em *emitter, allPath
 	// --- without the policy: the same expressions do see the URNs ---
 	hasDifferingURN := false
 	for _, s := range sc.Contact.Slots {
-		if s.A != s.B {
+		// "differ" as an expression can see it: the printed forms scheme:path#display (normalized by gocommon) differ;
+		// twins like `ext:x ` / `ext:x` print alike
+		pr := func(raw string) string {
+			scheme, path, _, display := urns.URN(raw).ToParts()
+			u, _ := urns.NewFromParts(scheme, path, nil, display)
+			return string(u)
+		}
+		if pr(s.A) != pr(s.B) {
 			hasDifferingURN = true
 		}
 	}
